@@ -15,6 +15,7 @@
 //   ordsortw <asc> <w> <strs>  Array<StringView<w>>::Sort, all views into one shared buffer
 //   ordsortn <asc> <n|i|r> <nums>  Array<SizeT64 | SizeT64I | double>::Sort (built-in comparisons)
 //   ordsortl <asc> <ops>     HList<String<char>> (keys only), same output as ordsorth with values 0
+//   ordbig <kind> <pattern> <n> <asc> <seed>  large arrays generated, sorted and judged inside the harness (see doBig) -> ok | wrong-at:...
 //   orddeep <n> <reversed> <asc>  Array<SizeT>::Sort on sorted/reversed input of n elements -> ok (implementation only)
 // string token: units joined by '.', the empty string is "e".  value token: u | o<n>[x<tag>] | a<n>[x<tag>] |
 // s:<str> | n<nat> | i<int> | r<16 hex> | t | f | z | p<token>.  lists joined by ',', the empty list is "-".
@@ -732,6 +733,140 @@ static std::string doDeep(unsigned n, bool reversed, bool asc) {
     return "ok";
 }
 
+// Large arrays: generated, sorted and judged inside the harness (a compact verdict instead of 10 000 items).
+//   ordbig <kind> <pattern> <n> <asc> <seed>
+// kind: u Array<SizeT64> | d Array<double> | s Array<String> | v Value array (Value::Sort) | h HArray keys (+ every
+// lookup afterwards) | g Memory::Sort on the sub-segment [100, n+100) of an Array<SizeT64> of n+200 items.
+// pattern: r random permutation | f few distinct values (n/64+2) | b shuffled blocks of 32 ascending items |
+// m organ pipe of 64 levels.  None recurses once per element (finding sort-stack-depth-on-sorted-input).
+// Judgement: the result equals the independently sorted key sequence (std::sort on plain integers) item by item — that is
+// ordered + permutation at once — and adjacent items are in order by the container's own operators.
+#include <algorithm>
+static uint64_t xs_next(uint64_t &st) {
+    st ^= st << 13;
+    st ^= st >> 7;
+    st ^= st << 17;
+    return st;
+}
+
+static std::vector<uint64_t> big_keys(char pattern, size_t n, uint64_t seed, bool distinct) {
+    uint64_t              st = seed * 2654435761ULL + 88172645463325252ULL;
+    std::vector<uint64_t> k(n);
+    for (size_t i = 0; i < n; i++) k[i] = i;
+    auto shuffle = [&](std::vector<uint64_t> &v) {
+        for (size_t i = v.size(); i > 1; i--) std::swap(v[i - 1], v[xs_next(st) % i]);
+    };
+    if (pattern == 'r' || distinct) {
+        shuffle(k);
+        if (pattern == 'b') {   // blocks of 32 ascending keys in shuffled block order
+            std::vector<uint64_t> blocks((n + 31) / 32), out;
+            for (size_t i = 0; i < blocks.size(); i++) blocks[i] = i;
+            shuffle(blocks);
+            for (auto b : blocks)
+                for (size_t j = b * 32; j < n && j < (b + 1) * 32; j++) out.push_back(j);
+            k = out;
+        }
+    } else if (pattern == 'f') {
+        const uint64_t d = n / 64 + 2;
+        for (size_t i = 0; i < n; i++) k[i] = xs_next(st) % d;
+    } else if (pattern == 'b') {
+        std::vector<uint64_t> blocks((n + 31) / 32), out;
+        for (size_t i = 0; i < blocks.size(); i++) blocks[i] = i;
+        shuffle(blocks);
+        for (auto b : blocks)
+            for (size_t j = b * 32; j < n && j < (b + 1) * 32; j++) out.push_back(j);
+        k = out;
+    } else {   // 'm'
+        for (size_t i = 0; i < n; i++) k[i] = ((i % 128) < 64 ? (i % 128) : 127 - (i % 128)) + 64 * (xs_next(st) % 3);
+    }
+    return k;
+}
+
+static std::string big_verdict(const std::vector<uint64_t> &got, std::vector<uint64_t> keys, bool asc, long adjacent_bad) {
+    std::sort(keys.begin(), keys.end());
+    if (!asc) std::reverse(keys.begin(), keys.end());
+    char buf[160];
+    if (got.size() != keys.size()) return "size-changed";
+    for (size_t i = 0; i < got.size(); i++)
+        if (got[i] != keys[i]) {
+            snprintf(buf, sizeof buf, "wrong-at:%zu:got=%llu:want=%llu", i, (unsigned long long)got[i], (unsigned long long)keys[i]);
+            return buf;
+        }
+    if (adjacent_bad >= 0) {
+        snprintf(buf, sizeof buf, "adjacent-out-of-order-at:%ld", adjacent_bad);
+        return buf;
+    }
+    return "ok";
+}
+
+template <typename Elem>
+static long adjacent_bad(const Elem *p, size_t from, size_t to, bool asc) {
+    for (size_t i = from + 1; i < to; i++)
+        if (asc ? (p[i] < p[i - 1]) : (p[i] > p[i - 1])) return long(i);
+    return -1;
+}
+
+static std::string doBig(char kind, char pattern, size_t n, bool asc, uint64_t seed) {
+    std::vector<uint64_t> keys = big_keys(pattern, n, seed, kind == 'h');
+    std::vector<uint64_t> got;
+    long                  adj = -1;
+    char                  buf[32];
+    if (kind == 'u' || kind == 'g') {
+        const size_t pad = (kind == 'g') ? 100 : 0;
+        Array<SizeT64> a;
+        for (size_t i = 0; i < pad; i++) a += SizeT64(1000000000ULL + i * 7919ULL % 1000);   // untouched borders, unsorted
+        for (auto k : keys) a += SizeT64(k);
+        for (size_t i = 0; i < pad; i++) a += SizeT64(2000000000ULL + i * 104729ULL % 1000);
+        if (kind == 'u') a.Sort(asc);
+        else if (asc) Memory::Sort<true>(a.Storage(), SizeT(pad), SizeT(pad + n));
+        else Memory::Sort<false>(a.Storage(), SizeT(pad), SizeT(pad + n));
+        for (size_t i = 0; i < pad; i++)
+            if (a.First()[i] != SizeT64(1000000000ULL + i * 7919ULL % 1000) || a.First()[pad + n + i] != SizeT64(2000000000ULL + i * 104729ULL % 1000))
+                return "outside-segment-changed";
+        for (size_t i = 0; i < n; i++) got.push_back(a.First()[pad + i]);
+        adj = adjacent_bad(a.First(), pad, pad + n, asc);
+    } else if (kind == 'd') {
+        Array<double> a;
+        for (auto k : keys) a += (double(k) - 1000.0) * 0.5;
+        a.Sort(asc);
+        for (size_t i = 0; i < n; i++) got.push_back(uint64_t(a.First()[i] * 2.0 + 1000.0));
+        adj = adjacent_bad(a.First(), 0, n, asc);
+    } else if (kind == 's') {
+        Array<VStr> a;
+        for (auto k : keys) {
+            snprintf(buf, sizeof buf, "%07llu", (unsigned long long)k);
+            a += VStr(static_cast<const char *>(buf));
+        }
+        a.Sort(asc);
+        for (size_t i = 0; i < n; i++) got.push_back(strtoull(a.First()[i].First(), nullptr, 10));
+        adj = adjacent_bad(a.First(), 0, n, asc);
+    } else if (kind == 'v') {
+        Val v{ValueType::Array};
+        for (auto k : keys) v += SizeT64(k);
+        v.Sort(asc);
+        const auto *a = v.GetArray();
+        for (size_t i = 0; i < a->Size(); i++) got.push_back(a->First()[i].GetUInt64());
+        adj = adjacent_bad(a->First(), 0, a->Size(), asc);
+    } else if (kind == 'h') {
+        HArray<VStr, SizeT64> h;
+        for (auto k : keys) {
+            snprintf(buf, sizeof buf, "k%07llu", (unsigned long long)k);
+            h[VStr(static_cast<const char *>(buf))] = SizeT64(k * 3 + 1);
+        }
+        h.Sort(asc);
+        for (size_t i = 0; i < h.Size(); i++) got.push_back(strtoull(h.First()[i].Key.First() + 1, nullptr, 10));
+        adj = adjacent_bad(h.First(), 0, h.Size(), asc);
+        for (auto k : keys) {   // lookups remain correct
+            snprintf(buf, sizeof buf, "k%07llu", (unsigned long long)k);
+            const SizeT64 *x = h.GetValue(static_cast<const char *>(buf), SizeT(8));
+            if (x == nullptr || *x != SizeT64(k * 3 + 1)) return std::string("lookup-fail:") + buf;
+        }
+    } else {
+        return "bad-op";
+    }
+    return big_verdict(got, keys, asc, adj);
+}
+
 int main() {
     std::string line;
     while (vh::read_line(line)) {
@@ -773,6 +908,8 @@ int main() {
             else vh::emit("bad-op");
         } else if (op == "ordsortl" && t.size() == 3 && (t[1] == "0" || t[1] == "1")) {
             vh::emit(doSortL(t[1] == "1", t[2]));
+        } else if (op == "ordbig" && t.size() == 6 && t[1].size() == 1 && t[2].size() == 1) {
+            vh::emit(doBig(t[1][0], t[2][0], size_t(strtoull(t[3].c_str(), nullptr, 10)), t[4] == "1", strtoull(t[5].c_str(), nullptr, 10)));
         } else if (op == "orddeep" && t.size() == 4) {
             vh::emit(doDeep(unsigned(strtoul(t[1].c_str(), nullptr, 10)), t[2] == "1", t[3] == "1"));
         } else if (op == "ordloop" && t.size() == 3 && (t[1] == "0" || t[1] == "1")) {
